@@ -128,8 +128,15 @@ def run_pair(case):
     p = cfgp()
     F = fsm.ops_from_json(case["F"])
     G = fsm.ops_from_json(case["G"])
-    WF = fsm.poly_weights(len(F))
-    WG = fsm.poly_weights(len(G), offset=len(F))
+    narcs = sum(1 for o in F + G if o[0] == "A")
+    if narcs <= 2:
+        # few arcs: indeterminates on initial and final weights too (their handling is checked here)
+        WF = fsm.poly_weights(len(F))
+        WG = fsm.poly_weights(len(G), offset=len(F))
+    else:
+        # spend the degree budget on arcs: path pairs with up to D-2 arcs in total are compared
+        WF = fsm.arc_weights(F, unit=("I", "F"))
+        WG = fsm.arc_weights(G, offset=len(F), unit=("I", "F"))
     tF = clean(paths(fsm.data(F, WF), fst=True))
     tG = clean(paths(fsm.data(G, WG), fst=True))
     want = compose_tables(tF, tG)
